@@ -254,6 +254,228 @@ func (x *Exec) deepCopy(st *State, v Value, seen map[int]int, depth int) Value {
 	return v
 }
 
+// ---------- encoding/json decode semantics over snapshots ----------
+//
+// Unmarshal(Marshal(v)) into an existing target follows encoding/json: struct
+// fields are matched by JSON name, a field missing from the document (no
+// source field of that name, or an omitempty source field holding its zero
+// value) keeps the target's old value, null sets pointers / maps / slices to
+// nil, an existing non-nil map is reused and entries are added to it, an
+// existing non-nil pointer is decoded through, slices are rebuilt.
+
+func jsonFieldName(f *types.Var, tag string) (name string, omitempty, skip bool) {
+	name = f.Name()
+	if !f.Exported() {
+		return "", false, true
+	}
+	jt, ok := reflectTagLookup(tag, "json")
+	if !ok {
+		return name, false, false
+	}
+	if jt == "-" {
+		return "", false, true
+	}
+	parts := strings.Split(jt, ",")
+	if parts[0] != "" {
+		name = parts[0]
+	}
+	for _, o := range parts[1:] {
+		if o == "omitempty" {
+			omitempty = true
+		}
+	}
+	return name, omitempty, false
+}
+
+// reflectTagLookup is reflect.StructTag.Lookup on a raw tag string.
+func reflectTagLookup(tag, key string) (string, bool) {
+	for tag != "" {
+		i := 0
+		for i < len(tag) && tag[i] == ' ' {
+			i++
+		}
+		tag = tag[i:]
+		if tag == "" {
+			break
+		}
+		i = 0
+		for i < len(tag) && tag[i] > ' ' && tag[i] != ':' && tag[i] != '"' && tag[i] != 0x7f {
+			i++
+		}
+		if i == 0 || i+1 >= len(tag) || tag[i] != ':' || tag[i+1] != '"' {
+			break
+		}
+		name := tag[:i]
+		tag = tag[i+1:]
+		i = 1
+		for i < len(tag) && tag[i] != '"' {
+			if tag[i] == '\\' {
+				i++
+			}
+			i++
+		}
+		if i >= len(tag) {
+			break
+		}
+		q := tag[:i+1]
+		tag = tag[i+1:]
+		if key == name {
+			if len(q) >= 2 {
+				return q[1 : len(q)-1], true
+			}
+			return "", true
+		}
+	}
+	return "", false
+}
+
+// jsonCompatible: can a document produced from a value of type src be decoded into type tgt by this model?
+func (x *Exec) jsonCompatible(tgt, src types.Type, depth int) bool {
+	if depth > 12 || types.Identical(tgt, src) {
+		return true
+	}
+	switch t := tgt.Underlying().(type) {
+	case *types.Struct:
+		s, ok := src.Underlying().(*types.Struct)
+		if !ok {
+			return false
+		}
+		for i := 0; i < t.NumFields(); i++ {
+			tn, _, skip := jsonFieldName(t.Field(i), t.Tag(i))
+			if skip {
+				continue
+			}
+			for j := 0; j < s.NumFields(); j++ {
+				sn, _, sskip := jsonFieldName(s.Field(j), s.Tag(j))
+				if !sskip && sn == tn && !x.jsonCompatible(t.Field(i).Type(), s.Field(j).Type(), depth+1) {
+					return false
+				}
+			}
+		}
+		return true
+	case *types.Pointer:
+		s, ok := src.Underlying().(*types.Pointer)
+		return ok && x.jsonCompatible(t.Elem(), s.Elem(), depth+1)
+	case *types.Map:
+		s, ok := src.Underlying().(*types.Map)
+		return ok && types.Identical(t.Key(), s.Key()) && x.jsonCompatible(t.Elem(), s.Elem(), depth+1)
+	case *types.Slice:
+		s, ok := src.Underlying().(*types.Slice)
+		return ok && x.jsonCompatible(t.Elem(), s.Elem(), depth+1)
+	case *types.Basic:
+		s, ok := src.Underlying().(*types.Basic)
+		return ok && s.Kind() == t.Kind()
+	}
+	return false
+}
+
+// jsonZero: is v the "empty value" of omitempty?  Returns (concrete, term): a concrete answer or a condition.
+func (x *Exec) jsonZero(st *State, v Value) *Term {
+	switch u := v.(type) {
+	case *Term:
+		if u.sort == BoolSort {
+			return x.tc.Not(u)
+		}
+		if u.sort == FPSort {
+			return x.tc.False // floats: treated as present (no harness relies on omitempty floats)
+		}
+		return x.tc.Eq(u, x.tc.Const(u.sort.W, 0))
+	case *StrV:
+		return x.strEq(u, x.strConst(""))
+	case PtrV:
+		return x.tc.Bool(u.isNil())
+	case MapV:
+		return x.tc.Bool(u.obj == 0 || len(st.heap[u.obj].(*MapObj).entries) == 0)
+	case SliceV:
+		return x.tc.Bool(u.len == 0)
+	case IfaceV:
+		return x.tc.Bool(u.typ == nil)
+	}
+	return x.tc.False
+}
+
+func (x *Exec) jsonDecodeInto(st *State, old, nw Value, tgt, src types.Type, depth int) Value {
+	if depth > 40 {
+		panic(x.unsupported("json decode depth"))
+	}
+	switch t := tgt.Underlying().(type) {
+	case *types.Struct:
+		s := src.Underlying().(*types.Struct)
+		ov, nv := old.(*StructV), nw.(*StructV)
+		f := append([]Value(nil), ov.f...)
+		for i := 0; i < t.NumFields(); i++ {
+			tn, _, skip := jsonFieldName(t.Field(i), t.Tag(i))
+			if skip {
+				continue
+			}
+			for j := 0; j < s.NumFields(); j++ {
+				sn, omit, sskip := jsonFieldName(s.Field(j), s.Tag(j))
+				if sskip || sn != tn {
+					continue
+				}
+				dec := x.jsonDecodeInto(st, ov.f[i], nv.f[j], t.Field(i).Type(), s.Field(j).Type(), depth+1)
+				if omit {
+					z := x.jsonZero(st, nv.f[j])
+					switch {
+					case z.IsTrue():
+						dec = ov.f[i]
+					case z.IsFalse():
+					default:
+						switch d := dec.(type) {
+						case *Term:
+							dec = x.tc.Ite(z, ov.f[i].(*Term), d)
+						case *StrV:
+							dec = x.strIte(z, ov.f[i].(*StrV), d)
+						}
+					}
+				}
+				f[i] = dec
+				break
+			}
+		}
+		return &StructV{f: f}
+	case *types.Pointer:
+		np := nw.(PtrV)
+		if np.isNil() {
+			return PtrV{}
+		}
+		se := src.Underlying().(*types.Pointer).Elem()
+		if op, ok := old.(PtrV); ok && !op.isNil() {
+			x.store(st, op, x.jsonDecodeInto(st, x.load(st, op), x.load(st, np), t.Elem(), se, depth+1))
+			return op
+		}
+		return st.alloc(x.jsonDecodeInto(st, x.zero(t.Elem()), x.load(st, np), t.Elem(), se, depth+1))
+	case *types.Map:
+		nm := nw.(MapV)
+		if nm.obj == 0 {
+			return MapV{}
+		}
+		se := src.Underlying().(*types.Map).Elem()
+		m, _ := old.(MapV)
+		if m.obj == 0 {
+			p := st.alloc(nil)
+			st.heap[p.obj] = &MapObj{}
+			m = MapV{obj: p.obj}
+		}
+		for _, e := range st.heap[nm.obj].(*MapObj).entries {
+			x.mapSet(st, m, x.deepCopy(st, e.key, map[int]int{}, 0), x.jsonDecodeInto(st, x.zero(t.Elem()), e.val, t.Elem(), se, depth+1))
+		}
+		return m
+	case *types.Slice:
+		ns := nw.(SliceV)
+		if ns.base.isNil() {
+			return SliceV{}
+		}
+		se := src.Underlying().(*types.Slice).Elem()
+		arr := &ArrayV{e: make([]Value, ns.len)}
+		for k := 0; k < ns.len; k++ {
+			arr.e[k] = x.jsonDecodeInto(st, x.zero(t.Elem()), x.load(st, x.sliceElemPtr(ns, k)), t.Elem(), se, depth+1)
+		}
+		return SliceV{base: st.alloc(arr), len: ns.len, cap: ns.len}
+	}
+	return x.deepCopy(st, nw, map[int]int{}, 0)
+}
+
 func registerSnapshotIntrinsics() {
 	// encoding/json abstraction: Marshal(v) keeps a deep snapshot of v and
 	// returns the bytes "json#<k>"; Unmarshal of such bytes into a pointer of
@@ -298,17 +520,19 @@ func registerSnapshotIntrinsics() {
 			if snap, ok := st.ghost["$json:"+txt[5:]]; ok {
 				siv := snap.(IfaceV)
 				pt, isPtr := tgt.typ.Underlying().(*types.Pointer)
-				if isPtr && siv.typ != nil && types.Identical(pt.Elem(), siv.typ) {
-					x.store(st, tgt.val.(PtrV), x.deepCopy(st, siv.val, map[int]int{}, 0))
-					return ret1(IfaceV{})
-				}
-				if isPtr && siv.typ != nil {
-					if sp, ok := siv.typ.Underlying().(*types.Pointer); ok && types.Identical(pt.Elem(), sp.Elem()) {
-						src := siv.val.(PtrV)
-						if !src.isNil() {
-							x.store(st, tgt.val.(PtrV), x.deepCopy(st, x.load(st, src), map[int]int{}, 0))
-							return ret1(IfaceV{})
+				if isPtr && siv.typ != nil && !tgt.val.(PtrV).isNil() {
+					srcT, srcV := siv.typ, siv.val
+					if sp, ok := srcT.Underlying().(*types.Pointer); ok {
+						if _, tgtIsPtr := pt.Elem().Underlying().(*types.Pointer); !tgtIsPtr {
+							if src := srcV.(PtrV); !src.isNil() {
+								srcT, srcV = sp.Elem(), x.load(st, src)
+							}
 						}
+					}
+					if x.jsonCompatible(pt.Elem(), srcT, 0) {
+						tp := tgt.val.(PtrV)
+						x.store(st, tp, x.jsonDecodeInto(st, x.load(st, tp), srcV, pt.Elem(), srcT, 0))
+						return ret1(IfaceV{})
 					}
 				}
 			}
